@@ -1,8 +1,8 @@
 """Regenerate gen/PostTables.v from the post-processing sources (C18).
 
 Extracted (fail closed: any other shape raises TranslateError):
-  histogram.py   Histogram.__init__ defaults (n_shots, msq_first, epsilon); the per-key conversion
-                 `outcomes = {k: round(v*n_shots) for k, v in outcomes.items()}`; the sum test
+  histogram.py   Histogram.__init__ defaults (n_shots, msq_first, epsilon); the conversion of probabilities to counts (either per-key
+                 `round(v*n_shots)`, or floors + largest remainders sorted by (floor - scaled, key)) -> conversion_rule; the sum test
                  `abs(sum_values-1) > epsilon`; the key reversal `{k[::-1]: v ...}`;
                  remove_qubit_indices' accumulator default `new_counts.get(new_bitstring, 0)`
   post_selection.py  the accumulator defaults of split_frequency_dict_for_last_n_digits
@@ -46,27 +46,43 @@ def extract(repo):
     t["default_n_shots"] = _const(d["n_shots"], "n_shots default", (int,))
     t["default_msq_first"] = _const(d["msq_first"], "msq_first default", (bool,))
     t["default_epsilon"] = Fraction(_const(d["epsilon"], "epsilon default"))
-    # outcomes = {k: round(v*n_shots) for k, v in outcomes.items()}
+    # the conversion of probabilities to counts: one of the two known shapes
+    def _norm(n):
+        return ast.unparse(n).replace(" ", "")
     conv = [n for n in ast.walk(init) if isinstance(n, ast.Assign) and len(n.targets) == 1 and _is_name(n.targets[0], "outcomes")]
-    if len(conv) != 1 or not isinstance(conv[0].value, ast.DictComp):
-        raise TranslateError("Histogram.__init__: the conversion of probabilities to counts was not found as one dict comprehension")
-    dc = conv[0].value
-    val = dc.value
-    ok = (isinstance(val, ast.Call) and _is_name(val.func, "round") and len(val.args) == 1 and not val.keywords
-          and isinstance(val.args[0], ast.BinOp) and isinstance(val.args[0].op, ast.Mult)
-          and {getattr(val.args[0].left, "id", None), getattr(val.args[0].right, "id", None)} == {"v", "n_shots"}
-          and _is_name(dc.key, "k") and len(dc.generators) == 1 and not dc.generators[0].ifs)
-    if not ok:
-        raise TranslateError("Histogram.__init__: conversion is not `round(v*n_shots)` per key: %s" % ast.unparse(dc))
-    t["conversion"] = "round_per_key"
+    dcs = [n.value for n in conv if isinstance(n.value, ast.DictComp)]
+    if len(conv) != 1 or len(dcs) != 1:
+        raise TranslateError("Histogram.__init__: the conversion of probabilities to counts was not found as one dict comprehension assigned to outcomes")
+    dc = dcs[0]
+    if _norm(dc) == "{k:round(v*n_shots)fork,vinoutcomes.items()}":
+        t["conversion"] = "round_per_key"
+        extra_dictcomps = 0
+    elif _norm(dc) == "{k:int(s//1)fork,sinscaled.items()}":
+        # scaled = {k: v*n_shots ...}; n_missing = round(sum(scaled.values())) - sum(outcomes.values());
+        # for k in sorted(scaled, key=lambda k: (outcomes[k] - scaled[k], k))[:n_missing]: outcomes[k] += 1
+        sc = [n for n in ast.walk(init) if isinstance(n, ast.Assign) and len(n.targets) == 1 and _is_name(n.targets[0], "scaled")]
+        if len(sc) != 1 or _norm(sc[0].value) != "{k:v*n_shotsfork,vinoutcomes.items()}":
+            raise TranslateError("Histogram.__init__: `scaled` is not {k: v*n_shots ...}")
+        nm = [n for n in ast.walk(init) if isinstance(n, ast.Assign) and len(n.targets) == 1 and _is_name(n.targets[0], "n_missing")]
+        if len(nm) != 1 or _norm(nm[0].value) != "round(sum(scaled.values()))-sum(outcomes.values())":
+            raise TranslateError("Histogram.__init__: n_missing is not round(sum(scaled.values())) - sum(outcomes.values())")
+        loops = [n for n in ast.walk(init) if isinstance(n, ast.For)]
+        if len(loops) != 1 or _norm(loops[0].iter) != "sorted(scaled,key=lambdak:(outcomes[k]-scaled[k],k))[:n_missing]" \
+                or len(loops[0].body) != 1 or _norm(loops[0].body[0]) != "outcomes[k]+=1" or not _is_name(loops[0].target, "k"):
+            raise TranslateError("Histogram.__init__: the largest-remainder loop has an unexpected shape: %s" % (ast.unparse(loops[0])[:200] if loops else "no loop"))
+        t["conversion"] = "largest_remainder"
+        extra_dictcomps = 1
+    else:
+        raise TranslateError("Histogram.__init__: unknown conversion of probabilities to counts: %s" % ast.unparse(dc))
     # abs(sum_values-1) > epsilon
     tests = [n for n in ast.walk(init) if isinstance(n, ast.Compare) and isinstance(n.left, ast.Call) and _is_name(n.left.func, "abs")]
     if len(tests) != 1 or not (isinstance(tests[0].ops[0], ast.Gt) and _is_name(tests[0].comparators[0], "epsilon")
                                and ast.unparse(tests[0].left.args[0]).replace(" ", "") == "sum_values-1"):
         raise TranslateError("Histogram.__init__: the normalisation test is not `abs(sum_values-1) > epsilon`")
     # {k[::-1]: v for k, v in self.counts.items()}
-    rev = [n for n in ast.walk(init) if isinstance(n, ast.DictComp) and n is not dc]
-    if len(rev) != 1 or ast.unparse(rev[0].key) != "k[::-1]" or not _is_name(rev[0].value, "v"):
+    rev = [n for n in ast.walk(init) if isinstance(n, ast.DictComp) and n is not dc and ast.unparse(n.key) == "k[::-1]"]
+    others = [n for n in ast.walk(init) if isinstance(n, ast.DictComp)]
+    if len(others) != 2 + extra_dictcomps or len(rev) != 1 or not _is_name(rev[0].value, "v"):
         raise TranslateError("Histogram.__init__: the msq_first branch is not a key reversal")
     rm = find_def(h, "remove_qubit_indices", cls="Histogram")
     gets = [n for n in ast.walk(rm) if isinstance(n, ast.Call) and isinstance(n.func, ast.Attribute) and n.func.attr == "get"]
@@ -126,7 +142,7 @@ def extract(repo):
 
 # last known-good extraction (tangelo as of the C18 check's first run); used by the check only as a clearly
 # labelled fallback when extract() fails closed, so that the search for a concrete failing input can go on
-FALLBACK = {"default_n_shots": 0, "default_msq_first": False, "default_epsilon": Fraction(1e-2), "conversion": "round_per_key",
+FALLBACK = {"default_n_shots": 0, "default_msq_first": False, "default_epsilon": Fraction(1e-2), "conversion": "largest_remainder",
             "remove_default": Fraction(0), "split_defaults": [Fraction(0), Fraction(0)], "sign_base": -1, "parity_modulus": 2,
             "resample_chunk_size": 10**7}
 
@@ -143,6 +159,8 @@ def emit(t):
         "(* generated by translator/post_tables.py from tangelo/toolboxes/post_processing/{histogram,post_selection}.py",
         "   and tangelo/linq/target/backend.py; do not edit *)",
         "From Coq Require Import ZArith QArith Qcanon.",
+        "From Tangelo Require Import Post.Histogram.",
+        "Definition conversion_rule : conv_rule := %s." % {"round_per_key": "RoundPerKey", "largest_remainder": "LargestRemainder"}[t["conversion"]],
         "Definition default_epsilon : Qc := %s." % _q(t["default_epsilon"]),
         "Definition default_n_shots : Z := (%d)%%Z." % t["default_n_shots"],
         "Definition default_msq_first : bool := %s." % ("true" if t["default_msq_first"] else "false"),
